@@ -437,7 +437,7 @@ def run(ctx):
                                "independent Python oracle (hand-written cycle scanner, structural checkers)"]
     ctx.cov["rule"] = "case = a GAP text (by hash) or (puzzle, parameters); non-trivial when >= 2 generators or n >= 4; distinct by text hash / tuple"
     if os.environ.get("VERIF_SKIP_PROVE") != "1":
-        ctx.prove(extra=["PuzzlesRun"])
+        ctx.prove(extra=["PuzzlesRun", "MoveTablesProofs"])
 
     def report(kind, what, case, found=True):
         ctx.violation(kind, what, case, found)
@@ -715,6 +715,29 @@ def run(ctx):
         report("correspondence", "globe_gens model differs from the implementation", em[i], False)
     ctx.cov["disagreements_checked"] += len(bc) + len(ec)
 
+    # ------------------------------------------------------------------ table-driven puzzles against the model built from the REGENERATED tables
+    import translators as _tr
+    _tr.gen_all(strict=True, which=("MoveTables",))
+    tcases, tmetas = [], []
+    for nm, model in (("mini_pyramorphix", "table_perms tbl_mini_pyramorphix_allowed_moves"), ("picture_cube333", "table_perms tbl_picture_cube_333_allowed_moves"),
+                      ("pyraminx", "Ok pyraminx_gens"), ("megaminx", "Ok megaminx_gens")):
+        obs = observe(getattr(Puzzles, nm))
+        if obs[0] == "ok":
+            d = obs[1]
+            lit = "[" + "; ".join(f"({cstr(n_)}, " + clist([int(v) for v in p_], str) + "%nat)" for n_, p_ in zip(d.generator_names, d.generators_permutations)) + "]"
+            tcases.append(f"({model}, {lit})")
+            tmetas.append({"kind": "table_puzzle_model", "name": nm})
+    for metric, model in (("fixed_QTM", "Ok cube222_quarter_gens"), ("fixed_HTM", "Ok cube222_half_gens")):
+        d = Puzzles.rubik_cube(2, metric)
+        lit = "[" + "; ".join(f"({cstr(n_)}, " + clist([int(v) for v in p_], str) + "%nat)" for n_, p_ in zip(d.generator_names, d.generators_permutations)) + "]"
+        tcases.append(f"({model}, {lit})")
+        tmetas.append({"kind": "table_puzzle_model", "name": "rubik_cube(2, " + metric + ")"})
+    bad = ctx.coq_failing("Base Perm MoveTablesDefs MoveTablesProofs", "From V.gen Require Import MoveTables.", "result (list (string * list nat)) * list (string * list nat)",
+                          tcases, "check_table_puzzle", "tables", shard=3)
+    for i in bad[:3]:
+        report("correspondence", f"{tmetas[i]['name']}: the generators / names the library builds from its move table differ from the model built from the regenerated table", tmetas[i], False)
+    ctx.cov["disagreements_checked"] += len(tcases)
+    ctx.count("table_puzzles_compared_with_model", len(tcases))
     # ------------------------------------------------------------------ table-driven puzzles: valid and inverse-closed
     for nm in ("mini_pyramorphix", "pyraminx", "megaminx", "picture_cube333", "starminx", "starminx_2"):
         obs = observe(getattr(Puzzles, nm))
